@@ -239,10 +239,78 @@ Qed.
 Theorem dg_new_spec sid p : dg_new sid p = if sid mod 4 =? 0 then Ok (sid, p) else Panic 10.
 Proof. reflexivity. Qed.
 
-(* the Buf impl defines exactly the three required methods: every provided method (copy_to_bytes, has_remaining,
-   get_u8, ...) is then the bytes crate's default loop over these three, which the laws above cover *)
-Lemma buf_impl_is_the_three_required_methods : buf_methods = [1; 2; 3].
-Proof. reflexivity. Qed.
+(* Datagram::new: the divisibility assert is the ONLY condition, whatever the payload *)
+Theorem dg_new_total sid p :
+  (sid mod 4 = 0 -> dg_new sid p = Ok (sid, p)) /\ (sid mod 4 <> 0 -> dg_new sid p = Panic 10).
+Proof.
+  rewrite dg_new_spec. split; intros H.
+  - rewrite H. reflexivity.
+  - destruct (N.eqb_spec (sid mod 4) 0); [contradiction|reflexivity].
+Qed.
+
+(* the Buf impl defines exactly the three required methods (as a SET: their order in the impl block is irrelevant):
+   every provided method (copy_to_bytes, has_remaining, get_u8, ...) is then the bytes crate's default loop over these
+   three, which the laws above cover *)
+Lemma buf_impl_is_the_three_required_methods :
+  (forall m, In m buf_methods <-> In m [1; 2; 3]) /\ length buf_methods = 3%nat.
+Proof. split; [intros m; unfold buf_methods; cbn [In]; tauto|reflexivity]. Qed.
+
+(* regenerated facts about the call sites: one constructor of EncodedDatagram (the literal in encode); send_datagram goes
+   through new + encode; read_datagram turns a decode error into a connection error *)
+Lemma call_site_facts :
+  encoded_datagram_constructors = 1 /\ constructor_in_encode = true /\
+  tx_path_new_encode = true /\ rx_error_is_connection_error = true.
+Proof. repeat split; reflexivity. Qed.
+
+(* ---- the call sites ---- *)
+
+Lemma Forall_repeat {A} (P : A -> Prop) x n : P x -> Forall P (repeat x n).
+Proof. intros H. induction n; cbn; constructor; auto. Qed.
+
+Theorem dg_tx_bytes :
+  forall sid payload, sid < 2 ^ 62 -> sid mod 4 = 0 -> nonempty_chunks payload ->
+    dg_tx sid payload = Ok (rfc_dg_bytes sid (concat payload)).
+Proof.
+  intros sid payload Hs Hm Hne. unfold dg_tx.
+  destruct (dg_new_total sid payload) as [Hnew _]. rewrite (Hnew Hm).
+  destruct (dg_encode_view sid payload Hs Hne) as (st & He & Hinv & Hview). rewrite He.
+  rewrite (dg_remaining_law st Hinv).
+  set (ks := repeat whole_chunk (N.to_nat (len (dg_view st)))).
+  assert (Hks : Forall (fun k => 1 <= k) ks).
+  { apply Forall_repeat. unfold whole_chunk. lia. }
+  assert (Hlen : len (dg_view st) <= N.of_nat (length ks)).
+  { unfold ks. rewrite repeat_length. lia. }
+  destruct (dg_consume_progress ks st Hinv Hks Hlen) as (out & st' & Hc & Hv').
+  destruct (dg_consume_exact ks st Hinv) as (out2 & st2 & Hc2 & Happ & _).
+  rewrite Hc in Hc2. inversion Hc2; subst out2 st2. rewrite Hc.
+  rewrite Hv', app_nil_r in Happ. rewrite Happ, Hview. reflexivity.
+Qed.
+
+Theorem dg_tx_panics :
+  forall sid payload, sid mod 4 <> 0 -> dg_tx sid payload = Panic 10.
+Proof.
+  intros sid payload Hm. unfold dg_tx.
+  destruct (dg_new_total sid payload) as [_ Hnew]. rewrite (Hnew Hm). reflexivity.
+Qed.
+
+Theorem dg_rx_spec :
+  forall bs, wf_bytes bs ->
+    dg_rx bs = match rfc_dg_decode bs with
+               | Some (s, p) => RxDatagram s p
+               | None => RxConnError H3_DATAGRAM_ERROR_rfc H3_DATAGRAM_ERROR_rfc
+               end.
+Proof.
+  intros bs Hwf. unfold dg_rx. rewrite (dg_decode_spec bs Hwf).
+  destruct (rfc_dg_decode bs) as [[s p]|]; reflexivity.
+Qed.
+
+Theorem dg_tx_rx_roundtrip :
+  forall sid payload, sid < 2 ^ 62 -> sid mod 4 = 0 -> nonempty_chunks payload -> wf_bytes (concat payload) ->
+    exists wire, dg_tx sid payload = Ok wire /\ dg_rx wire = RxDatagram sid (concat payload).
+Proof.
+  intros sid payload Hs Hm Hne Hwf. eexists. split; [apply dg_tx_bytes; assumption|].
+  unfold dg_rx. rewrite dg_roundtrip by assumption. reflexivity.
+Qed.
 
 Lemma codes_facts : dec_code_truncated = H3_DATAGRAM_ERROR_rfc /\ dec_code_range = H3_DATAGRAM_ERROR_rfc.
 Proof. split; reflexivity. Qed.
